@@ -43,6 +43,17 @@ type tcase struct {
 	ReadDeadline time.Duration
 	// BurstOnly: a burst size is configured and the rate is left at zero, so burst + 0 x T = burst bytes may ever pass
 	BurstOnly bool
+	// OwnRoute: the throttle handler is the last handler of a route of its own; the handler that reads the connection
+	// sits in the route after it (a throttled connection stays throttled for whoever reads it next)
+	OwnRoute bool
+}
+
+// routesFor lays out the handlers: all in one route, or the reading handler in a later route.
+func (tc tcase) routesFor(before []map[string]any, th, reader map[string]any) []rx.R {
+	if tc.OwnRoute {
+		return []rx.R{{Handle: append(append([]map[string]any(nil), before...), th)}, {Handle: []map[string]any{reader}}}
+	}
+	return []rx.R{{Handle: append(append([]map[string]any(nil), before...), th, reader)}}
 }
 
 func (tc tcase) effBurst() int {
@@ -94,7 +105,7 @@ func cost(cs connSpec, batchCap int) int {
 }
 
 func genBurstOnly(t *rapid.T) tcase {
-	tc := tcase{BurstOnly: true}
+	tc := tcase{BurstOnly: true, OwnRoute: rapid.IntRange(0, 3).Draw(t, "ownRoute") == 0}
 	which := rapid.IntRange(0, 2).Draw(t, "burstOnlyKind") // 0 per-connection, 1 total, 2 both
 	bursts := []int{1, 7, 100, 1500, 4096}
 	if which != 1 {
@@ -134,6 +145,7 @@ func genCase(t *rapid.T) tcase {
 	if kind == 3 || rapid.IntRange(0, 3).Draw(t, "withLatency") == 0 {
 		tc.Latency = time.Duration(rapid.IntRange(1, 200).Draw(t, "latencyMs")) * time.Millisecond
 	}
+	tc.OwnRoute = rapid.IntRange(0, 3).Draw(t, "ownRoute") == 0
 	n := 1
 	if kind != 0 && rapid.Bool().Draw(t, "many") {
 		n = rapid.IntRange(2, 8).Draw(t, "nconns")
@@ -214,7 +226,7 @@ func runBurstOnly(t hx.TB, tc tcase, class string) {
 	if tc.TotalBurst > 0 {
 		th["total_read_burst_size"] = tc.TotalBurst
 	}
-	rl, err := rx.Routes(rx.BareCtx(), []rx.R{{Handle: []map[string]any{th, rx.H("verif_term", "id", "R")}}})
+	rl, err := rx.Routes(rx.BareCtx(), tc.routesFor(nil, th, rx.H("verif_term", "id", "R")))
 	if err != nil {
 		t.Fatalf("provision: %v", err)
 	}
@@ -328,7 +340,10 @@ func runCase(t hx.TB, tc tcase, class string) {
 	results := make([]*connResult, len(tc.Conns))
 	var wg sync.WaitGroup
 	// one provisioned throttle handler shared by all connections (so that the total limiter is shared)
-	top := []rx.R{{Handle: []map[string]any{rx.H("verif_mark", "id", "M"), th, rx.H("verif_term", "id", "R")}}}
+	top := tc.routesFor([]map[string]any{rx.H("verif_mark", "id", "M")}, th, rx.H("verif_term", "id", "R"))
+	if tc.OwnRoute {
+		hx.Class("C17/throttle-in-a-route-of-its-own", 1)
+	}
 	rl, err := rx.Routes(rx.BareCtx(), top)
 	if err != nil {
 		t.Fatalf("provision: %v", err)
